@@ -1,6 +1,9 @@
 //! C19 — wire code points map to the right enumeration values.
 
+use crate::calls::*;
 use crate::engine::*;
+use crate::gen;
+use crate::sut::{self, CtxStore};
 use libmctp::base_packet::MessageType;
 use libmctp::control_packet::{CommandCode, CompletionCode};
 use proptest::prelude::*;
@@ -12,6 +15,9 @@ pub enum Case {
     MsgType { byte: u8 },
     /// completion codes: only 0..=5 are inside the claim
     Completion { byte: u8 },
+    /// all 518 conversions again after some context of this process has seen
+    /// traffic: the conversions are functions of the byte alone
+    AfterTraffic { cfg: CtxCfg, hist: Vec<Op> },
 }
 
 pub struct C19;
@@ -77,22 +83,25 @@ impl Prop for C19 {
         "C19"
     }
     fn rule(&self) -> String {
-        "enumerated completely: all 256 byte values through CommandCode::from and MessageType::from, bytes 0..5 through CompletionCode::from, each result compared by numeric value (`as u8`) and Debug name with a hand-written DSP0236/DSP0239 table; every defined variant is converted back (`as u8` then from) and must return itself. non-trivial = a defined code point (21 command codes, 5 message types, 6 completion codes); all cases are distinct by construction".into()
+        "enumerated completely (the conversions take one byte and nothing else): all 256 byte values through CommandCode::from and MessageType::from, bytes 0..5 through CompletionCode::from, each result compared by numeric value (`as u8`) and Debug name with a hand-written DSP0236/DSP0239 table; every defined variant is converted back (`as u8` then from) and must return itself. non-trivial = a defined code point (21 command codes, 5 message types, 6 completion codes); all cases are distinct by construction. generated in addition: the same 518 conversions after a random history (processed packets incl. plausible responses, decodes, encodes, accessor calls) on a random context of the same process - they must not depend on anything but the byte".into()
     }
     fn assumptions(&self) -> Vec<String> {
         vec!["completion-code bytes 6..255 are outside the claim (the conversion is not total there; the decoder guards it, see C10)".into()]
     }
     fn strategy(&self, _tier: Tier) -> BoxedStrategy<Case> {
-        prop_oneof![any::<u8>().prop_map(|byte| Case::Command { byte }), any::<u8>().prop_map(|byte| Case::MsgType { byte }), (0u8..=5).prop_map(|byte| Case::Completion { byte })].boxed()
+        (gen::ctx_cfg_maybe_no_vendor(), gen::prior_history(4)).prop_map(|(cfg, hist)| Case::AfterTraffic { cfg, hist }).boxed()
     }
-    fn budget(&self, _tier: Tier) -> u64 {
-        0
+    fn budget(&self, tier: Tier) -> u64 {
+        match tier {
+            Tier::Quick => 40_000,
+            Tier::Thorough => 1_000_000,
+        }
     }
     fn fully_exhaustive(&self) -> bool {
         true
     }
     fn required_labels(&self) -> Vec<&'static str> {
-        vec!["command_defined", "command_undefined", "msgtype_defined", "msgtype_undefined", "completion"]
+        vec!["command_defined", "command_undefined", "msgtype_defined", "msgtype_undefined", "completion", "after_traffic"]
     }
     fn enumerate(&self, _tier: Tier, shard: usize, nshards: usize, f: &mut dyn FnMut(Case)) {
         for b in 0..=255u32 {
@@ -112,6 +121,44 @@ impl Prop for C19 {
     fn run(&self, case: &Case) -> CaseResult {
         let mut r = CaseResult::default();
         match case {
+            Case::AfterTraffic { cfg, hist } => {
+                r.label("after_traffic");
+                r.nontrivial = !hist.is_empty();
+                // one such case at a time in this process, so that state kept outside
+                // the contexts is attributed to the history that created it
+                static ONE_AT_A_TIME: std::sync::Mutex<()> = std::sync::Mutex::new(());
+                let _guard = ONE_AT_A_TIME.lock().unwrap_or_else(|e| e.into_inner());
+                // the conversions must be right before the history as well; if they
+                // are not, earlier cases of this process have left something behind
+                // and this case cannot tell what its own history did (separate
+                // signature, so that shrinking keeps the history that matters)
+                for b in 0..=255u8 {
+                    let pre = [self.run(&Case::Command { byte: b }), self.run(&Case::MsgType { byte: b })];
+                    if let Some(f) = pre.iter().flat_map(|x| x.failures.iter()).next() {
+                        r.fail(format!("{}:process_state_left_by_earlier_calls", f.sig), format!("before this case's history ran (state left behind by earlier library calls of this process): {}", f.detail));
+                        return r;
+                    }
+                }
+                let store = CtxStore::new(cfg);
+                let mut ctx = store.ctx();
+                for op in hist {
+                    let _ = sut::apply_op(&mut ctx, op);
+                }
+                for b in 0..=255u8 {
+                    let mut sub = vec![self.run(&Case::Command { byte: b }), self.run(&Case::MsgType { byte: b })];
+                    if b <= 5 {
+                        sub.push(self.run(&Case::Completion { byte: b }));
+                    }
+                    for s in sub {
+                        for f in s.failures {
+                            r.fail(format!("{}:after_traffic", f.sig), format!("after a history of {} calls on some context: {}", hist.len(), f.detail));
+                        }
+                    }
+                    if !r.failures.is_empty() {
+                        break;
+                    }
+                }
+            }
             Case::Command { byte } => {
                 let got = CommandCode::from(*byte);
                 let name = format!("{:?}", got);
